@@ -106,11 +106,17 @@ fn harnesses() -> Vec<Harness> {
         h("direct/file-numbers/3x2", ModeK::Direct, num, CleanK::Never, false, 3, 2, &[9], 0, true),
         h("async-capa4/file-numbers/2x3", ModeK::Async(1, 4, 0), num, CleanK::Never, false, 2, 3, &[6, 9, 7], 0, true),
         h("async-capa4/file-numbers+cleanup-in-writer-thread/2x2", ModeK::Async(1, 4, 0), num, CleanK::Log(1), false, 2, 2, &[9], 0, true),
+        // record sizes on both sides of the capacity thresholds (buffer capacity, async message capacity)
+        h("async-capa24/file-norotation/2x2/mixed-sizes", ModeK::Async(1, 24, 0), OutK::File(None), CleanK::Never, false, 2, 2, &[5, 40], 0, false),
+        h("async-capa24/file-numbers/2x3/mixed-sizes", ModeK::Async(2, 24, 0), num, CleanK::Never, false, 2, 3, &[5, 40, 6], 0, true),
+        h("buffered24/stdout/2x2/mixed-sizes", ModeK::BufDont(24), OutK::Stdout, CleanK::Never, false, 2, 2, &[5, 40], 0, false),
+        h("buffered24/stderr/2x2/mixed-sizes", ModeK::BufDont(24), OutK::Stderr, CleanK::Never, false, 2, 2, &[40, 5], 0, false),
+        h("buffered24/file-numbers/2x2/mixed-sizes", ModeK::BufDont(24), num, CleanK::Never, false, 2, 2, &[5, 40], 0, false),
+        h("async-capa24/stdout/2x2/mixed-sizes", ModeK::Async(1, 24, 0), OutK::Stdout, CleanK::Never, false, 2, 2, &[5, 40], 0, true),
     ];
     for (name, mode, thorough_only) in [
         ("direct/file-numbers/2x2/unmodelled-state-lock", ModeK::Direct, false),
         ("buffered8/file-numbers/2x2/unmodelled-state-lock", ModeK::BufDont(8), false),
-        ("async-capa4/file-numbers/2x2/unmodelled-state-lock", ModeK::Async(1, 4, 0), true),
     ] {
         let mut x = h(name, mode, num, CleanK::Never, false, 2, 2, &[9, 6], 0, thorough_only);
         x.unmodelled_state_lock = true;
@@ -135,7 +141,8 @@ fn sched_cfg(h: &Harness) -> SchedCfg {
     SchedCfg {
         ignore: vec!["flw_pool_pop", "set_max_level", "symlink_remove", "symlink_create", "flush", "std_pool_pop"],
         tick_budget: h.tick_budget,
-        detect_real_blocking: h.unmodelled_state_lock,
+        // always on: a lock the hooks do not know (a change that adds one) must not stall the run
+        detect_real_blocking: true,
         nonblocking_locks: if h.unmodelled_state_lock { vec!["flw_state"] } else { vec![] },
         ..SchedCfg::default()
     }
